@@ -21,6 +21,21 @@ NA = {
 }
 
 CHECKS = {
+ "C05": dict(
+    technique="deterministic simulation: option sets that add goroutines/files/log traffic compared under seeded adversarial schedules and map orders; on-demand/pkg-filter/max-alarms variants ride along as a cross-run oracle",
+    text="Seeded search, not proof. For each generated program the verdict (set of source->sink position pairs) of the base configuration under the zero tape is compared with the verdict under every listed option set run with swarm-drawn schedules, worker counts and map orders. max-alarms=k: subset, at most k, non-empty iff the unlimited result is. Only report-*/log-level have a temporal dimension; summarize-on-demand, pkg-filter and max-alarms are a differential comparison executed inside the simulator and are counted separately (sim_decided / ride_along / max_alarms in the evidence).",
+    note="Generated programs are single-package and import-free, so pkg-filter is nearly vacuous. Trusts simrt's primitive models. Built without the race detector (results only).",
+    ref="4/C05"),
+ "C06": dict(
+    technique="deterministic simulation: seeded scheduler for init steps and summary workers, worker count and every map iteration order in analysis/... and internal/... behind a seam; verdict compared with the zero-tape reference run",
+    text="Seeded search over schedules, worker counts (NumCPU 1..17) and map iteration orders (338 range sites routed to simrt.RangeMap). Oracle: flows, escapes, backtrace endpoints and error status equal those of the reference run (zero tape: one worker, run-to-block schedule, canonical map order) of the same program and configuration; a crash that only some tape produces is a violation. Every run is its own process, so a run is a pure function of its job and replays exactly.",
+    note="Keys whose canonical descriptions tie (distinct *ssa.Const with equal value) keep native relative order; counted in the evidence. internal/pointer's own map iterations are not permuted. One recorded known finding (use-escape-analysis escape contexts) is matched by a narrow signature.",
+    ref="4/C06"),
+ "C17": dict(
+    technique="deterministic simulation as an invariant monitor: bidirectional-consistency invariants evaluated on the graph every simulated run returns",
+    text="Invariant monitor riding on the simulated runs (eager, on-demand, escape, backtrace variants under swarm schedules/orders): out-edge <=> in-edge with matching tuple index, call node <=> callee-summary call sites, closure node <=> referring closures, GlobalNode read/write sets == access nodes of constructed summaries. Only the global sets are filled concurrently (counted as schedule_sensitive_checks); the rest is structural.",
+    note="Evaluated when the analysis returns, not between individual on-demand builds. For several out-edges with distinct tuple indices to one target the in-side keeps a single EdgeInfo by design of the data structure; the monitor requires that index to be one of the out indices.",
+    ref="4/C17"),
  "C20": dict(
     technique="deterministic simulation: seeded scheduler over the analyser's goroutines with a race-detector-transparent baton; stall and worker-count faults",
     text="Seeded schedule search, not proof. The real analyser (instrumented copy of the working tree, -race) runs under simrt: every go/chan/WaitGroup/Mutex/atomic operation, map iteration, NumCPU and clock read is a simulator decision drawn from one tape. Oracles: no race report (the detector cannot see the scheduler), no deadlock, no goroutine alive when Analyze returns, summaries report complete at return, MapParallel == Map with every element processed once.",
